@@ -9,13 +9,18 @@ completion timeout fires, so the schedule is owned by the check.  A second, smal
 started Screen through a real ``os.pipe`` and calls ``get_input()``.
 
 Oracles (DESIGN.md C05 **O**): (1) never raises, (2) raw-byte conservation, (3) independent protocol
-decode of the independently generated forms, (4) events(whole) == events(any fragmentation without
-timeouts), (4b) with timeouts: the pending bytes are decoded as they stand, i.e. as if the stream
-ended at that cut, (5) composition / pass-through: a self-delimiting item decodes to the same events
-whatever follows it.
+decode of the independently generated forms (incl. UTF-8: CPython's codec says which byte strings are
+characters; every byte that belongs to none is one event of its own), (4) events(whole) ==
+events(any fragmentation without timeouts), where a fragmentation may contain reads that return
+nothing (the input callback woken without new bytes: resize pipe, gpm, get_input() polling), (4b) with
+timeouts: the pending bytes are decoded as they stand, i.e. as if the stream ended at that cut,
+(5) composition / pass-through: a self-delimiting item decodes to the same events whatever follows
+it.  After every run of the input callback: bytes accounted for are a prefix of what was fed, and
+bytes still pending are covered by an armed completion alarm.
 """
 from __future__ import annotations
 
+import codecs
 import io
 import json
 import os
@@ -37,22 +42,35 @@ RULE = (
     "stream: a byte stream is a concatenation of 1-12 grammar items (an input_sequences entry; xterm "
     "CSI 1;m X / CSI n;m ~ / SS3 X / SS3 m X written from the xterm documentation, m in 2..8; X10 mouse "
     "ESC[M + 3 arbitrary bytes; SGR mouse ESC[<b;x;y(M|m) with b,x,y in 0..2**20; SGR reports with a "
-    "malformed parameter list; cursor position reports; UTF-8 characters of 1-4 bytes; double-byte "
-    "characters; C0 bytes; printable bytes; ESC-prefixed (meta) items; truncated items; arbitrary "
-    "bytes) x 1-6 fragmentations (sorted cut positions, each with a flag 'the completion timeout fires "
-    "here') plus the built-in byte-by-byte fragmentation x encoding in utf-8 / euc-jp / iso8859-1. "
-    "Exhaustive sweeps: every input_sequences entry x 3 encodings x every single cut with and without "
-    "timeout; every independently written xterm form; X10 mouse with every value of each of its three "
-    "bytes. Non-trivial: the stream contains a multi-byte item and at least one cut of a case "
-    "fragmentation falls strictly inside it. sync: the same streams written whole to a pipe and read "
-    "with Screen.get_input(). Thorough tier adds an atheris coverage-guided campaign over the same "
-    "oracle (arbitrary bytes + fragmentation header)."
+    "malformed parameter list; cursor position reports; UTF-8 characters of 1-4 bytes; UTF-8-shaped "
+    "byte strings that may or may not be characters (lead + announced number of continuation bytes "
+    "biased to the overlong / surrogate / > U+10FFFF boundaries, 5/6-byte forms, stray continuation and "
+    "0xF8-0xFF bytes, one continuation byte replaced); double-byte characters; C0 bytes; printable "
+    "bytes; ESC-prefixed (meta) items; truncated items; arbitrary bytes) x the two built-in "
+    "fragmentations (byte by byte; byte by byte with a wake-up of the input callback that reads nothing "
+    "after every read) plus 1-6 generated ones (sorted cut positions, each with a flag 'the completion "
+    "timeout fires here' and a flag 'the input callback runs once more here and reads nothing') x "
+    "encoding in utf-8 / euc-jp / iso8859-1. Exhaustive sweeps: every input_sequences entry x 3 "
+    "encodings x every single cut x (plain / timeout / wake-up without input / both); every "
+    "independently written xterm form likewise; X10 mouse with every value of each of its three bytes; "
+    "SGR mouse button codes 0..127; every UTF-8-shaped sequence (lead 0xC0-0xF7 x all 64 second bytes x "
+    "extreme later bytes; alone with every single cut, between printable bytes, doubled before a key "
+    "sequence); every two-byte character of gbk / big5 / uhc / euc-jp. Non-trivial: the stream contains "
+    "a multi-byte item and at least one cut of a case fragmentation falls strictly inside it. sync: the "
+    "same streams written to a pipe whole or in up to three pieces and read with Screen.get_input(), "
+    "one call per write plus calls that find nothing new. Thorough tier adds an atheris coverage-guided "
+    "campaign over the same oracle (arbitrary bytes + fragmentation header)."
 )
 ASSUMPTIONS = [
     "the explicit cut list replaces the OS read() scheduling; Screen._read_raw_input (abstract, "
     "documented override point) is substituted to return the next fragment, get_available_raw_input and "
     "parse_input are the real ones",
     "a fake event loop owns the completion alarm: 'timeout fires' = every alarm still armed is called",
+    "a read that returns no bytes is one of the 'successive reads' of the statement: the posix "
+    "_read_raw_input returns an empty bytearray whenever the watch callback was woken by another "
+    "descriptor (resize pipe, gpm) and get_input() polls with max_wait; such a wake-up happens before the "
+    "completion timeout, so it must change neither the events nor the bytes accounted for, and bytes "
+    "still pending after it must still be covered by an armed completion alarm ('rather than lost')",
     "names for the independently generated forms come from the xterm ctlseqs documentation (PC-style "
     "function keys, modifier parameter 2..8 = 1 + shift(1) + alt(2) + ctrl(4)); urwid's documented "
     "spelling is used: 'shift ', 'meta ' (Alt), 'ctrl ' in that order, keypad digits/operators as the "
@@ -65,6 +83,12 @@ ASSUMPTIONS = [
     "only oracles 1, 2, 4 apply to them (the statement speaks of *recognised* sequences)",
     "C0 bytes 0 and 28..31, and stray UTF-8 continuation / 0xF8-0xFF bytes, must each be exactly one "
     "string event; their spelling is not asserted",
+    "utf-8 mode, bytes >= 0x80: what is a character is decided by CPython's UTF-8 codec (RFC 3629: no "
+    "overlong forms, no surrogates, nothing above U+10FFFF), run incrementally with surrogateescape so "
+    "that it also segments: a well-formed character is one event equal to the character, every other "
+    "byte is 'a byte that forms no known sequence' = exactly one string event of its own (spelling not "
+    "asserted). A string that ends inside a character which further bytes could complete is not "
+    "self-delimiting: only oracles 1, 2, 4 apply to it",
 ]
 
 ENCODINGS = ["utf-8", "euc-jp", "iso8859-1"]
@@ -114,20 +138,24 @@ def _input_file():
 
 
 def _norm_cuts(cuts, n):
-    """cut list [[pos, fire], ...] -> sorted, distinct, 0 < pos < n; a repeated position fires if
-    any of its entries does."""
+    """cut list [[pos, flags], ...] -> sorted, distinct positions 0 < pos <= n with the flags of a
+    repeated position or-ed together.  flags & 1: the completion timeout fires after this read;
+    flags & 2: before that, the input callback runs once more and its read returns nothing (a wake-up
+    without new bytes).  pos == n (after the last read) is kept only for the wake-up flag - the timeout
+    always fires at the end of the stream."""
     d = {}
     for c in cuts:
-        p = int(c[0])
-        if 0 < p < n:
-            d[p] = d.get(p, 0) or (1 if c[1] else 0)
+        p, f = int(c[0]), int(c[1]) & 3
+        if 0 < p < n or (p == n and f & 2):
+            d[p] = d.get(p, 0) | (f if p < n else 2)
     return sorted(d.items())
 
 
 def run_stream(stream: bytes, cuts=()):
-    """Feed `stream` cut at `cuts` ([(pos, fire)] normalised).  Returns (events, effective) where
-    effective is the list of cut positions at which a timeout actually flushed pending bytes.
-    Checks oracle 2 (conservation) and the alarm bookkeeping; urwid exceptions propagate."""
+    """Feed `stream` cut at `cuts` ([(pos, flags)] normalised, see _norm_cuts).  Returns (events,
+    effective) where effective is the list of cut positions at which a timeout actually flushed
+    pending bytes.  Checks oracle 2 (conservation) and the alarm bookkeeping after every run of the
+    input callback (with or without new bytes); urwid exceptions propagate."""
     scr = _FeedScreen(input=_input_file(), output=io.StringIO())
     loop = _FakeLoop()
     events, raws = [], []
@@ -138,32 +166,38 @@ def run_stream(stream: bytes, cuts=()):
         events.extend(keys)
         raws.extend(raw)
 
-    n = len(stream)
-    points = [(p, f) for p, f in cuts] + [(n, 2)]
-    effective = []
-    start = 0
-    for pos, fire in points:
-        scr._c05_chunk = stream[start:pos]
-        start = pos
+    def wake(chunk, pos, what):
+        # what hook_event_loop's watch-file wrapper does when a watched descriptor is readable
+        scr._c05_chunk = chunk
         scr.parse_input(loop, callback, scr.get_available_raw_input())
         delivered = len(raws)
-        if bytes(raws) != stream[:delivered] or delivered > pos:
+        if bytes(bytearray(raws)) != stream[:delivered] or delivered > pos:
             raise Violation(
                 "raw-conservation",
-                f"after feeding {stream[:pos]!r} (cuts {list(cuts)}) the raw arguments concatenate to "
+                f"after {what} {stream[:pos]!r} (cuts {list(cuts)}) the raw arguments concatenate to "
                 f"{bytes(bytearray(raws))!r}, not a prefix of what was fed",
             )
         if delivered < pos and not loop.armed:
             raise Violation(
                 "pending-without-alarm",
-                f"{stream[delivered:pos]!r} is pending after feeding {stream[:pos]!r} but no completion alarm is armed",
+                f"{stream[delivered:pos]!r} is pending after {what} {stream[:pos]!r} but no completion alarm is armed",
             )
         for sec, _cb in loop.armed.values():
             if sec != scr.complete_wait:
                 raise Violation("alarm-delay", f"completion alarm armed with {sec!r}, complete_wait is {scr.complete_wait!r}")
-        if fire:
+
+    n = len(stream)
+    points = [(p, f) for p, f in cuts if p < n] + [(n, 4 | sum(f & 2 for p, f in cuts if p == n))]
+    effective = []
+    start = 0
+    for pos, flags in points:
+        wake(stream[start:pos], pos, "feeding")
+        start = pos
+        if flags & 2:
+            wake(b"", pos, "a wake-up without new input following")
+        if flags & 5:
             rounds = 0
-            if loop.armed and fire == 1:
+            if loop.armed and flags & 1:
                 effective.append(pos)
             while loop.armed:
                 rounds += 1
@@ -238,6 +272,36 @@ def byte_spec(b, mode):
     if b >= 128 and mode == "narrow":
         return ("eq", chr(b))
     return ("str",)
+
+
+def text_specs(data, mode):
+    """Expected events of a byte string without ESC, or None when the harness has no independent
+    reading (wide mode with bytes >= 0x80) or when the string ends inside a character that more bytes
+    could still complete.  utf8 mode: CPython's incremental UTF-8 decoder (the trusted reference for
+    "is a character") with the surrogateescape handler segments the bytes left to right into
+    well-formed characters - one event each, equal to the character - and bytes that belong to no
+    character (stray continuation bytes, overlong forms, surrogates, code points above U+10FFFF,
+    leads 0xC0/0xC1/0xF5-0xFF, truncated characters followed by something else): one string event
+    per byte."""
+    if ESC in data:
+        return None
+    if mode != "utf8":
+        specs = [byte_spec(b, mode) for b in data]
+        return specs if all(s is not None for s in specs) else None
+    dec = codecs.getincrementaldecoder("utf-8")("surrogateescape")
+    text = dec.decode(data, False)
+    if dec.getstate()[0]:
+        return None
+    specs = []
+    for ch in text:
+        o = ord(ch)
+        if o < 0x80:
+            specs.append(byte_spec(o, mode))
+        elif 0xDC80 <= o <= 0xDCFF:
+            specs.append(("str",))
+        else:
+            specs.append(("eq", ch))
+    return specs
 
 
 def _mouse_prefix(b):
@@ -365,10 +429,19 @@ def build_item(it, mode) -> Item:
         return Item("trunc+" + inner.kind, inner.data[:keep])
     if k == "raw":
         data = it[1].encode("latin-1")
-        specs = [byte_spec(b, mode) for b in data]
-        if data and all(s is not None for s in specs):
-            return Item("singles", data, True, specs, True)
-        return Item("garbage", data)
+        specs = text_specs(data, mode) if data else None
+        if specs is None:
+            return Item("garbage", data)
+        return Item("singles" if len(specs) == len(data) else "text", data, True, specs, True)
+    if k == "u8x":
+        # UTF-8-shaped bytes (all >= 0x80 by construction of the generators; any bytes accepted)
+        data = it[1].encode("latin-1")
+        specs = text_specs(data, mode) if data else None
+        if specs is None:
+            return Item("u8x-in-wide" if mode == "wide" else "u8x-open", data)
+        if mode == "narrow":
+            return Item("u8x-as-latin1", data, True, specs, True)
+        return Item("u8x-chars" if len(specs) < len(data) and all(sp[0] == "eq" for sp in specs) else "u8x", data, True, specs, True)
     raise AssertionError(it)
 
 
@@ -409,6 +482,10 @@ def _show_spec(spec):
 
 # ---------------------------------------------------------------------------------------------
 # the check
+
+
+def _show_cuts(cuts):
+    return "[" + ", ".join(f"{p}{'+wake-up without input' if f & 2 else ''}" for p, f in cuts) + "]"
 
 
 def check_stream(case):
@@ -454,8 +531,10 @@ def check_stream(case):
                 f"{ev_whole[pos:]!r}, on its own to {whole(rest)!r}",
             )
 
-    # (4)/(4b) fragmentations.  The byte-by-byte one is always included.
+    # (4)/(4b) fragmentations.  The byte-by-byte one is always included, plain and with a wake-up
+    # without new bytes after every read.
     frags = [[(p, 0) for p in range(1, n)]] if n > 1 else []
+    frags.append([(p, 2) for p in range(1, n + 1)])
     frags += [_norm_cuts(f, n) for f in case.get("frags", ())]
     seen = set()
     for cuts in frags:
@@ -468,7 +547,7 @@ def check_stream(case):
             if ev != ev_whole:
                 raise Violation(
                     "fragmentation",
-                    f"[{case['enc']}] {stream!r} whole -> {ev_whole!r}; cut at {[p for p, _ in cuts]} without timeout -> {ev!r}",
+                    f"[{case['enc']}] {stream!r} whole -> {ev_whole!r}; cut at {_show_cuts(cuts)} without timeout -> {ev!r}",
                 )
             continue
         exp, a = [], 0
@@ -478,18 +557,24 @@ def check_stream(case):
         if ev != exp:
             raise Violation(
                 "timeout-decodes-pending",
-                f"[{case['enc']}] {stream!r} cut at {[p for p, _ in cuts]}, timeout flushed at {eff}: events {ev!r}; "
+                f"[{case['enc']}] {stream!r} cut at {_show_cuts(cuts)}, timeout flushed at {eff}: events {ev!r}; "
                 f"decoding the pieces {[stream[x:y] for x, y in zip([0, *eff], [*eff, n])]!r} as they stand gives {exp!r}",
             )
 
 
 def check_sync(case):
-    """Whole stream written to a pipe, read with get_input() of a started Screen (no event loop)."""
+    """Stream written to a pipe - whole, or in the pieces given by case["parts"] (cut positions) - and read
+    with get_input() of a started Screen (no event loop): one call after every write, one more that finds
+    nothing new, three more at the end.  There is no clock in this mode, so the events must be those of
+    the whole stream."""
     use_encoding(case["enc"])
     mode, items, stream = build_stream(case)
     if not stream or len(stream) > 4096:
         raise Discard()
     ev_whole = run_stream(stream)[0]
+    n = len(stream)
+    cuts = sorted({int(p) for p in case.get("parts", ()) if 0 < int(p) < n})
+    pieces = [stream[a:b] for a, b in zip([0, *cuts], [*cuts, n])]
     r, w = os.pipe()
     rf = os.fdopen(r, "rb", 0)
     scr = raw_display.Screen(input=rf, output=io.StringIO())
@@ -498,11 +583,13 @@ def check_sync(case):
     try:
         scr.start()
         try:
-            os.write(w, stream)
-            for _ in range(4):  # one call that sees the bytes, three more with nothing new to read
-                keys, raw = scr.get_input(raw_keys=True)
-                events.extend(keys)
-                raws.extend(raw)
+            for i, piece in enumerate(pieces):
+                os.write(w, piece)
+                # one call that sees the bytes, then calls with nothing new to read
+                for _ in range(2 if i < len(pieces) - 1 else 4):
+                    keys, raw = scr.get_input(raw_keys=True)
+                    events.extend(keys)
+                    raws.extend(raw)
         finally:
             scr.stop()
     finally:
@@ -513,12 +600,12 @@ def check_sync(case):
         if stream.startswith(got) and events == ev_whole[: len(events)]:
             raise Violation(
                 "sync-pending-never-decoded",
-                f"[{case['enc']}] get_input() x4 after {stream!r} delivered {events!r} / raw {got!r}; "
+                f"[{case['enc']}] get_input() after {pieces!r} (and x3 more) delivered {events!r} / raw {got!r}; "
                 f"{stream[len(got):]!r} stays pending although no more input arrives (event-loop path: {ev_whole!r})",
             )
-        raise Violation("sync-raw-conservation", f"[{case['enc']}] get_input() after {stream!r}: raw {got!r}")
+        raise Violation("sync-raw-conservation", f"[{case['enc']}] get_input() after each of {pieces!r}: raw {got!r}")
     if events != ev_whole:
-        raise Violation("sync-events", f"[{case['enc']}] get_input() after {stream!r}: {events!r}, event-loop path {ev_whole!r}")
+        raise Violation("sync-events", f"[{case['enc']}] get_input() after each of {pieces!r}: {events!r}, event-loop path {ev_whole!r}")
 
 
 SUBS = {"stream": check_stream, "sync": check_sync}
@@ -557,6 +644,43 @@ def _bytes_of(*vals):
     return "".join(chr((v >> s) & 255) for v in vals for s in (0, 8, 16))
 
 
+_CONT_EDGES = [0x80, 0x8F, 0x90, 0x9F, 0xA0, 0xBF]  # the second-byte boundaries of RFC 3629's table
+_NOT_CONT = [0x41, 0x7F, 0xC0, 0xC3, 0xE2, 0xF0, 0xF8, 0xFF, 0x0D, 0x20]
+
+
+def u8x_from_ints(a, b, c, d, e):
+    """UTF-8-shaped byte string (as latin-1 str): a lead byte with the number of continuation bytes its
+    bit pattern announces (continuation bytes biased to the boundaries that separate overlong forms,
+    surrogates and > U+10FFFF from characters), the obsolete 5/6-byte forms, stray continuation /
+    0xF8-0xFF bytes, or a shaped sequence with one continuation byte replaced by something else.  Valid
+    characters are a frequent outcome; the oracle decides by CPython's codec, not by this function."""
+
+    def cont(x):
+        return _CONT_EDGES[(x >> 1) % 6] if x & 1 else 0x80 + (x >> 1) % 64
+
+    t = a % 8
+    sel = (a >> 3) % 3
+    if t <= 1:
+        out = [[0xC0, 0xC1, 0xC2 + b % 30][sel] if t else 0xC0 + b % 32, cont(c)]
+    elif t <= 3:
+        out = [[0xE0, 0xED, 0xE0 + b % 16][sel], cont(c), cont(d)]
+    elif t <= 5:
+        out = [[0xF0, 0xF4, 0xF0 + b % 8][sel], cont(c), cont(d), cont(e)]
+    elif t == 6:
+        if sel == 0:  # 5- and 6-byte forms of the original UTF-8 definition
+            lead = 0xF8 + b % 8
+            out = [lead] + [cont(x) for x in (c, d, e, c >> 8, d >> 8)][: 4 if lead < 0xFC else 5]
+        else:  # stray bytes
+            out = [(0x80 + (x >> 1) % 64) if x & 1 else (0xF8 + (x >> 1) % 8) for x in (b, c, d, e)][: 1 + (a >> 5) % 4]
+    else:
+        lead = [0xC2 + b % 30, 0xE0 + b % 16, 0xF0 + b % 8][sel]
+        out = [lead] + [cont(x) for x in (c, d, e)][: sel + 1]
+        out[1 + (a >> 5) % (sel + 1)] = _NOT_CONT[(a >> 8) % len(_NOT_CONT)]
+        if (a >> 12) & 1:
+            out = out[: 2 + (a >> 5) % (sel + 1)]
+    return "".join(chr(x) for x in out)
+
+
 def item_from_ints(v, complete_only=False):
     """v: 8 integers in 0..2**24-1 -> grammar item."""
     k, a, b, c, d, e = v[0], v[1], v[2], v[3], v[4], v[5]
@@ -583,9 +707,11 @@ def item_from_ints(v, complete_only=False):
         return ["sgr", bb, x, y, "Mm"[(a >> 6) & 1]]
     if k == 14:
         return ["cpr", 1 + (b % 200 if a & 1 else b % 2**20), 1 + (c % 200 if a & 2 else c % 2**20)]
-    if k <= 16:
+    if k == 15:
         lo, hi = _U8_RANGES[a % 5]
         return ["u8", lo + b % (hi - lo + 1)]
+    if k == 16:
+        return ["u8x", u8x_from_ints(a, b, c, d, e)]
     if k == 17:
         lead = [0xA1 + b % 94, 0x8E, 0x80 + b % 128][a % 3]
         trail = 0xA1 + c % 94 if (a >> 2) & 1 else 0x20 + c % 224
@@ -621,7 +747,17 @@ def item_from_ints(v, complete_only=False):
 
 
 def cuts_from_ints(vals, n, allow_fire):
-    return [[1 + (v >> 1) % (n - 1), (v & 1) if allow_fire else 0] for v in vals]
+    """cut values -> [[pos, flags]]; bit 0 of a value: the timeout fires there (if this fragmentation
+    allows timeouts), bits 21-22 both set (one cut in four): a wake-up without new bytes follows that
+    read, and then the position may also be n, i.e. after the last read."""
+    out = []
+    for v in vals:
+        idle = 2 if (v >> 21) & 3 == 3 else 0
+        if n < 2 and not idle:
+            continue
+        pos = 1 + (v >> 1) % (n if idle else n - 1)
+        out.append([pos, ((v & 1) if allow_fire else 0) | idle])
+    return out
 
 
 def case_from_ints(t, with_frags=True):
@@ -629,7 +765,7 @@ def case_from_ints(t, with_frags=True):
     case = {"enc": ["utf-8", "utf-8", "euc-jp", "iso8859-1"][enc_i % 4], "items": [item_from_ints(v) for v in item_vs]}
     if with_frags:
         n = len(build_stream(case)[2])
-        case["frags"] = [cuts_from_ints(vals, n, fire) for fire, vals in frag_vs] if n > 1 else []
+        case["frags"] = [cuts_from_ints(vals, n, fire) for fire, vals in frag_vs] if n else []
     return case
 
 
@@ -661,10 +797,17 @@ def _stream_case(max_frags=6):
     ).map(_case_from_bigs)
 
 
+def _sync_from(t):
+    case = _case_from_bigs((t[0], t[1], []), with_frags=False)
+    n = len(build_stream(case)[2])
+    case["parts"] = sorted({1 + v % (n - 1) for v in t[2]}) if n > 1 else []
+    return case
+
+
 def _sync_case():
-    return st.tuples(st.integers(0, 3), st.lists(_item_big, min_size=1, max_size=8), st.just([])).map(
-        lambda t: _case_from_bigs(t, with_frags=False)
-    )
+    return st.tuples(
+        st.integers(0, 3), st.lists(_item_big, min_size=1, max_size=8), st.lists(st.integers(0, 2**24 - 1), max_size=2)
+    ).map(_sync_from)
 
 
 # ---------------------------------------------------------------------------------------------
@@ -703,15 +846,20 @@ def classify(case):
         if it.kind == "x10" or it.kind == "sgr":
             out.add(f"{it.kind}:{'protocol-domain' if it.spec[0][1] is not None else 'outside-domain'}")
     n = len(stream)
-    fired = any(f for fr in case.get("frags", ()) for _, f in _norm_cuts(fr, n))
-    out.add("schedule:with-timeouts" if fired else "schedule:no-timeouts")
+    flags = 0
+    for fr in case.get("frags", ()):
+        for _, f in _norm_cuts(fr, n):
+            flags |= f
+    out.add("schedule:with-timeouts" if flags & 1 else "schedule:no-timeouts")
+    if flags & 2:
+        out.add("schedule:with-wake-up-without-input")
     if is_nontrivial(case):
         out.add("cut-inside-multibyte")
     return sorted(out)
 
 
 def classify_sync(case):
-    return [f"sync:enc:{case['enc']}"]
+    return [f"sync:enc:{case['enc']}", f"sync:writes:{len(case.get('parts', ())) + 1}"]
 
 
 # ---------------------------------------------------------------------------------------------
@@ -719,7 +867,9 @@ def classify_sync(case):
 
 
 def _single_cut_frags(n):
-    return [[[p, 0]] for p in range(1, n)] + [[[p, 1]] for p in range(1, n)]
+    """every single cut x (plain, timeout fires, wake-up without new bytes, wake-up then timeout), and the
+    wake-up after the whole stream"""
+    return [[[p, f]] for f in (0, 1, 2, 3) for p in range(1, n)] + [[[n, 2]]]
 
 
 def table_cases():
@@ -772,6 +922,36 @@ def dbcs_cases():
                     yield {"enc": enc, "items": [["raw", "x"], ["db", lead, trail], ["raw", "y"]], "frags": [[[2, 0]]]}
 
 
+def utf8_shape_cases():
+    """every byte string that has the *shape* of a UTF-8 character - lead byte 0xC0-0xF7 followed by as
+    many continuation bytes as its bit pattern announces - with the second byte taking all 64 values and
+    the later ones the two extremes; characters and non-characters (overlong, surrogate, > U+10FFFF,
+    leads 0xC0/0xC1/0xF5-0xF7) alike, told apart by CPython's codec.  Alone and between printable bytes."""
+    def shapes():
+        for lead in range(0xC0, 0xE0):
+            for c1 in range(0x80, 0xC0):
+                yield bytes([lead, c1])
+        for lead in range(0xE0, 0xF0):
+            for c1 in range(0x80, 0xC0):
+                for c2 in (0x80, 0xBF):
+                    yield bytes([lead, c1, c2])
+        for lead in range(0xF0, 0xF8):
+            for c1 in range(0x80, 0xC0):
+                for c2 in (0x80, 0xBF):
+                    for c3 in (0x80, 0xBF):
+                        yield bytes([lead, c1, c2, c3])
+
+    for i, data in enumerate(shapes()):
+        txt = data.decode("latin-1")
+        n = len(data)
+        yield {"enc": "utf-8", "items": [["u8x", txt]], "frags": _single_cut_frags(n)}
+        yield {"enc": "utf-8", "items": [["raw", "x"], ["u8x", txt], ["raw", "y"]], "frags": [[[n, 1]], [[2, 2], [n + 1, 0]]]}
+        yield {"enc": "utf-8", "items": [["u8x", txt], ["u8x", txt], ["tab", 0]], "frags": [[[n - 1, 0], [n + 1, 3]]]}
+        if i % 16 == 0:
+            yield {"enc": "iso8859-1", "items": [["u8x", txt], ["raw", "y"]], "frags": [[[1, 2]]]}
+            yield {"enc": "euc-jp", "items": [["u8x", txt], ["raw", "y"]], "frags": [[[1, 2]]]}
+
+
 def mouse_sgr_cases():
     for b in range(128):
         for final in "Mm":
@@ -794,7 +974,10 @@ def fuzz_case(data: bytes):
         if d == 0 or n < 2:
             continue
         step = d % 7 + 1
-        cuts = [[p, 1 if ((p * 5 + d) >> 3) & 1 and d & 128 else 0] for p in range(1 + d % step, n, step)]
+        cuts = [
+            [p, (1 if ((p * 5 + d) >> 3) & 1 and d & 128 else 0) | (2 if (p * 3 + d) & 3 == 0 and d & 64 else 0)]
+            for p in range(1 + d % step, n, step)
+        ]
         if cuts:
             frags.append(cuts)
     return {"enc": enc, "items": [["raw", stream.decode("latin-1")]], "frags": frags}
@@ -886,6 +1069,7 @@ def shard(ctx):
         ("independently written xterm forms (CSI 1;m X, CSI n;m ~, SS3 X, SS3 m X; m 2..8) x 3 encodings x every single cut", xterm_cases()),
         ("X10 mouse: every value of each of the three bytes x every single cut", x10_cases()),
         ("SGR mouse: every button code 0..127 x M/m", mouse_sgr_cases()),
+        ("every UTF-8-shaped sequence (lead 0xC0-0xF7 x every second byte x extreme later bytes), character or not", utf8_shape_cases()),
         ("every two-byte character of gbk / big5 / uhc / euc-jp (by Python's codecs): whole and split", dbcs_cases()),
     ]
     for name, cases in sweeps:
